@@ -38,6 +38,9 @@ func (e *Enc) freshResults(cur *cursor, sig *types.Signature, prefix string) []s
 		t := sig.Results().At(i).Type()
 		f := e.fresh(prefix, e.m.sortOf(t))
 		e.assume(cur.guard, e.typeAssume(cur.st, f, t))
+		if e.tinvName(t) != "" {
+			e.assume(cur.guard, e.tinvTerm(cur.st, f, t))
+		}
 		rs = append(rs, f)
 	}
 	return rs
@@ -134,12 +137,13 @@ func (e *Enc) staticCall(cur *cursor, v ssa.Value, callee *ssa.Function, binds [
 		e.ghostAfter(cur, callee.String(), args, v)
 		return
 	}
+	e.siteClauses(cur, name, args, pos)
 	if ct, ok := e.m.spec.Contracts[name]; ok && !(cur.fc.isTop && callee == cur.fc.fn && false) {
 		e.applyContract(cur, v, name, callee, ct, args, sig, pos)
 		e.ghostAfter(cur, name, args, v)
 		return
 	}
-	if cur.fc.depth < maxInlineDepth && !e.onStack(cur.fc, callee) && callee.Blocks != nil {
+	if cur.fc.depth < maxInlineDepth && !e.onStack(cur.fc, callee) && callee.Blocks != nil && e.inlinable(callee) {
 		e.inlineCall(cur, v, callee, binds, args, sig)
 		e.ghostAfter(cur, name, args, v)
 		return
@@ -147,6 +151,18 @@ func (e *Enc) staticCall(cur *cursor, v ssa.Value, callee *ssa.Function, binds [
 	e.havocked[name] = true
 	e.havocCall(cur, v, callee, sig)
 	e.ghostAfter(cur, name, args, v)
+}
+
+// inlinable: only small functions are inlined; larger ones without a contract are havocked
+// within their write set (and reported under havocked_callees).
+const maxInlineInstrs = 120
+
+func (e *Enc) inlinable(f *ssa.Function) bool {
+	n := 0
+	for _, b := range f.Blocks {
+		n += len(b.Instrs)
+	}
+	return n <= maxInlineInstrs
 }
 
 func (e *Enc) onStack(fc *fctx, f *ssa.Function) bool {
@@ -346,6 +362,9 @@ func (e *Enc) appendCall(cur *cursor, v ssa.Value, c *ssa.CallCommon, pos token.
 
 func (e *Enc) applyContract(cur *cursor, v ssa.Value, name string, callee *ssa.Function, ct *Contract, args []Val, sig *types.Signature, pos token.Pos) {
 	e.assumedCallees[name] = true
+	if ct.Trusted {
+		e.assumedCallees["trusted:"+name] = true
+	}
 	e.applyContractSig(cur, v, name, callee, ct, args, sig, pos, e.m.funcEffects(callee))
 }
 
@@ -428,6 +447,24 @@ func (e *Enc) applyContractSig(cur *cursor, v ssa.Value, name string, callee *ss
 		}
 		e.oblige(cur.guard, "pre", fmt.Sprintf("%s%s#%d.%s", cur.fc.tag, name, k, clauseLabel(rq)), goal, props, pos, rq.Src)
 	}
+	// by-value arguments carrying a type invariant
+	{
+		var ptypes []types.Type
+		if callee != nil {
+			for _, p := range callee.Params {
+				ptypes = append(ptypes, p.Type())
+			}
+		} else {
+			for i := 0; i < sig.Params().Len(); i++ {
+				ptypes = append(ptypes, sig.Params().At(i).Type())
+			}
+		}
+		for i, pt := range ptypes {
+			if i < len(args) && e.tinvName(pt) != "" && args[i].K == vTerm {
+				e.oblige(cur.guard, "tinv", fmt.Sprintf("%s%s#%d.arg%d", cur.fc.tag, name, k, i), e.tinvTerm(pre, args[i].T, pt), []string{"C01"}, pos, "type invariant of by-value argument")
+			}
+		}
+	}
 	// effects
 	if !ct.Pure {
 		if ct.HasMod {
@@ -437,7 +474,7 @@ func (e *Enc) applyContractSig(cur *cursor, v ssa.Value, name string, callee *ss
 		}
 	}
 	results := e.freshResults(cur, sig, "ret_"+sanitize(name))
-	if ct.Pure && len(ct.Ensures) == 0 && sig.Results().Len() > 0 {
+	if ct.Pure && (len(ct.Ensures) == 0 || ct.Opts["constant"] != "") && sig.Results().Len() > 0 {
 		// opaque pure function: deterministic in its arguments
 		var as, ss []string
 		for i, a := range args {
@@ -592,6 +629,35 @@ func (e *Enc) structPlace(addr string, t types.Type, out map[string][]string) {
 	}
 }
 
+// siteClauses: `assert`/`assume` clauses of the function under verification attached to the
+// k-th call of a callee ("@ callee#k", k counted in encoding order; "@ callee" = every call).
+// Assumptions are reported in the evidence (explicit_assumptions).
+func (e *Enc) siteClauses(cur *cursor, callee string, args []Val, pos token.Pos) {
+	top := cur.fc
+	if top.contract == nil || len(top.contract.Asserts) == 0 {
+		return
+	}
+	k := e.ordinal(top.tag + "site:" + callee)
+	for _, cl := range top.contract.Asserts {
+		if cl.Site != callee && cl.Site != fmt.Sprintf("%s#%d", callee, k) {
+			continue
+		}
+		sc := e.specCtx(cur.fc, cur.st, cur.guard)
+		for i, a := range args {
+			if a.K == vTerm {
+				sc.vars[fmt.Sprintf("arg%d", i)] = SV{T: a.T, Ty: a.Ty}
+			}
+		}
+		phi := e.specBool(sc, cl.Expr)
+		if cl.Kind == "assume" {
+			e.assume(cur.guard, phi)
+			e.explicitAssumes[fmt.Sprintf("%s: %s [before %s in %s]", clauseLabel(cl), cl.Src, cl.Site, e.topName)] = true
+		} else {
+			e.oblige(cur.guard, "assert", fmt.Sprintf("%s%s@%s#%d", top.tag, clauseLabel(cl), callee, k), phi, e.clauseProps(cur.fc, cl), pos, cl.Src)
+		}
+	}
+}
+
 // ghostAfter applies `after <callee>: $g = expr` clauses of the function under verification.
 func (e *Enc) ghostAfter(cur *cursor, callee string, args []Val, v ssa.Value) {
 	top := cur.fc
@@ -731,7 +797,7 @@ func (m *Model) verifyFunc(name string, ct *Contract) (*Enc, error) {
 	}
 	e := newEnc(m, fn, ct)
 	e.emitAxioms()
-	fc := &fctx{fn: fn, vals: map[ssa.Value]Val{}, freevars: map[*ssa.FreeVar]Val{}, isTop: true, contract: ct, namedLoc: map[string]*ssa.Alloc{}}
+	fc := &fctx{fn: fn, vals: map[ssa.Value]Val{}, freevars: map[*ssa.FreeVar]Val{}, isTop: true, contract: ct, namedLoc: map[string][]*ssa.Alloc{}}
 	st := newState()
 	fc.entrySt = newState()
 	e.declare("(declare-const $alloc@in Int)")
@@ -744,6 +810,9 @@ func (m *Model) verifyFunc(name string, ct *Contract) (*Enc, error) {
 		fc.vals[p] = v
 		fc.params = append(fc.params, v)
 		e.assume("true", e.typeAssume(st, c, p.Type()))
+		if e.tinvName(p.Type()) != "" {
+			e.assume("true", e.tinvTerm(st, c, p.Type()))
+		}
 	}
 	for _, fv := range fn.FreeVars {
 		c := "fv_" + sanitize(fv.Name())
@@ -764,6 +833,11 @@ func (m *Model) verifyFunc(name string, ct *Contract) (*Enc, error) {
 			rs = append(rs, e.asTerm(v))
 		}
 		e.smoke(r.guard, fmt.Sprintf("ret%d", k))
+		for i, v := range r.vals {
+			if rt := fn.Signature.Results().At(i).Type(); e.tinvName(rt) != "" {
+				e.oblige(r.guard, "tinv", fmt.Sprintf("result%d@ret%d", i, k), e.tinvTerm(r.st, e.asTerm(v), rt), []string{"C01"}, fn.Pos(), "type invariant of by-value result")
+			}
+		}
 		for _, en := range ct.Ensures {
 			sc := e.specCtxPost(fc, r.st, r.guard, rs)
 			goal := e.specBool(sc, en.Expr)
